@@ -89,8 +89,10 @@ def job(cfgs):
                       cfg['battery_mode'], transport, oc)))
         for clause, cause in vio:
             v2, _ = run_config(cfg, transport)
-            assert any(c == clause for c, _ in v2), 'non-deterministic failure'
             key = f"{clause}/{cfg['family']}/refused:{'+'.join(cfg['refused']) or 'none'}"
+            if not any(c == clause for c, _ in v2):
+                key = f"{clause}/{cfg['family']}/order-dependent"
+                cause = f'{cause}; ' + 'failed during exploration but not on a fresh replay: the outcome depends on earlier executions in the same process (state outside the objects under test leaks between executions)'
             out.setdefault(key, []).append(dict(key=key, clause=clause, replay=dict(cfg=cfg, transport=transport),
                                                 detail=dict(cause=cause, cfg=cfg)))
     res = []
